@@ -1,12 +1,314 @@
 package main
 
-// Models of cryptographic cores (filled in below).
+// Models of hash cores. A hasher object accumulates the written bytes; Sum is
+// the real digest (computed by the engine with the same library) when every
+// byte is concrete, otherwise an uninterpreted function of the input bytes.
+// For every pair of applications of the same algorithm on a path the engine
+// asserts  in1 = in2  <=>  out1 = out2  (functional consistency with the real
+// digests of concrete inputs, and collision freedom).
+
+import (
+	"crypto/sha256"
+	"fmt"
+	"go/types"
+	"hash"
+	"math/big"
+
+	"github.com/OneOfOne/xxhash"
+	"golang.org/x/crypto/blake2b"
+	"golang.org/x/crypto/sha3"
+)
+
+type hstate struct {
+	alg  string // blake2b | keccak | xxhash64 | sha256
+	size int    // output bytes
+	key  []value
+	seed uint64
+	buf  []value
+}
 
 type hashApp struct {
-	alg  string
-	in   []value
-	out  *Term
-	size int
+	fam string // algorithm + out size + key/seed
+	in  []value
+	out *Term // may be a constant
 }
 
 type sigRec struct{}
+
+func (i *interpreter) hstateOf(p *value) *hstate {
+	if i.ps != nil {
+		if h, ok := i.ps.hstates[p]; ok {
+			return h
+		}
+	}
+	if h, ok := i.hstatesInit[p]; ok {
+		return h
+	}
+	panic(unsupported("hash object not created through a modelled constructor"))
+}
+
+func (i *interpreter) newHstate(p *value, h *hstate) {
+	if i.ps != nil {
+		if i.ps.hstates == nil {
+			i.ps.hstates = map[*value]*hstate{}
+		}
+		i.ps.hstates[p] = h
+		return
+	}
+	if i.hstatesInit == nil {
+		i.hstatesInit = map[*value]*hstate{}
+	}
+	i.hstatesInit[p] = h
+}
+
+func allConcreteBytes(b []value) ([]byte, bool) {
+	out := make([]byte, len(b))
+	for k, x := range b {
+		c, ok := x.(uint8)
+		if !ok {
+			return nil, false
+		}
+		out[k] = c
+	}
+	return out, true
+}
+
+func nativeDigest(h *hstate, data []byte) []byte {
+	switch h.alg {
+	case "blake2b":
+		key, _ := allConcreteBytes(h.key)
+		var hh hash.Hash
+		var err error
+		hh, err = blake2b.New(h.size, key)
+		if err != nil {
+			panic(unsupported("blake2b.New: " + err.Error()))
+		}
+		hh.Write(data)
+		return hh.Sum(nil)
+	case "keccak":
+		hh := sha3.NewLegacyKeccak256()
+		hh.Write(data)
+		return hh.Sum(nil)
+	case "sha256":
+		s := sha256.Sum256(data)
+		return s[:]
+	case "xxhash64":
+		x := xxhash.NewS64(h.seed)
+		x.Write(data)
+		v := x.Sum64()
+		out := make([]byte, 8)
+		for k := 0; k < 8; k++ {
+			out[k] = byte(v >> (56 - 8*uint(k)))
+		}
+		return out
+	}
+	panic("nativeDigest: " + h.alg)
+}
+
+func (i *interpreter) bytesTerm(b []value) *Term {
+	// first byte most significant
+	var t *Term
+	for _, x := range b {
+		bt := i.toTerm(x)
+		if t == nil {
+			t = bt
+		} else {
+			t = i.tb.Concat(t, bt)
+		}
+	}
+	return t
+}
+
+// digest returns the output bytes (big-endian order of the out term) of hashing h.buf.
+func (i *interpreter) digest(h *hstate) []value {
+	fam := fmt.Sprintf("%s_%d", h.alg, h.size)
+	if h.alg == "xxhash64" {
+		fam = fmt.Sprintf("%s_s%d", h.alg, h.seed)
+	}
+	key, keyConc := allConcreteBytes(h.key)
+	if !keyConc {
+		panic(unsupported("hash with symbolic key"))
+	}
+	if len(key) > 0 {
+		fam += fmt.Sprintf("_k%x", key)
+	}
+	data, conc := allConcreteBytes(h.buf)
+	out := make([]value, h.size)
+	if conc {
+		d := nativeDigest(h, data)
+		for k := range out {
+			out[k] = d[k]
+		}
+		if i.ps != nil || true {
+			app := &hashApp{fam: fam, in: append([]value(nil), h.buf...), out: i.constTermBytes(d)}
+			i.recordHashApp(app)
+		}
+		return out
+	}
+	if i.ps == nil {
+		panic(engineError{"symbolic hash outside a path"})
+	}
+	n := len(h.buf)
+	uf := fmt.Sprintf("H_%s_n%d", fam, n)
+	in := i.bytesTerm(h.buf)
+	ot := i.tb.UF(uf, 8*h.size, in)
+	app := &hashApp{fam: fam, in: append([]value(nil), h.buf...), out: ot}
+	i.recordHashApp(app)
+	for k := range out {
+		hi := 8*(h.size-k) - 1
+		out[k] = i.tb.Extract(ot, hi, hi-7)
+	}
+	return out
+}
+
+func (i *interpreter) constTermBytes(d []byte) *Term {
+	return i.tb.BigConst(8*len(d), new(big.Int).SetBytes(d))
+}
+
+// recordHashApp adds the pairwise axioms between app and all earlier applications.
+func (i *interpreter) recordHashApp(app *hashApp) {
+	if i.ps == nil {
+		// init-time (concrete) application: remember it for every later path
+		if len(i.initHashApps) < 4096 {
+			i.initHashApps = append(i.initHashApps, app)
+		}
+		return
+	}
+	ps := i.ps
+	tb := i.tb
+	if !ps.initAppsLoaded {
+		ps.initAppsLoaded = true
+		for _, a := range i.initHashApps {
+			// constants created in another term table: rebuild
+			d, _ := allConcreteBytes(a.in)
+			_ = d
+			ps.hashApps = append(ps.hashApps, &hashApp{fam: a.fam, in: a.in, out: tb.BigConst(a.out.w, a.out.bigVal())})
+		}
+	}
+	for _, o := range ps.hashApps {
+		if o.fam != app.fam {
+			continue
+		}
+		if o.out.isConst() && app.out.isConst() {
+			continue
+		}
+		outEq := tb.Eq(o.out, app.out)
+		if len(o.in) != len(app.in) {
+			ps.assume(tb.Not(outEq))
+			continue
+		}
+		var inEq value = true
+		for k := range o.in {
+			inEq = i.andV(inEq, i.equalsV(tU8, o.in[k], app.in[k]))
+			if inEq == false {
+				break
+			}
+		}
+		ie := i.toTerm(inEq)
+		if ie.isConst() && ie.c != 0 && outEq.isConst() {
+			continue
+		}
+		ps.assume(tb.Eq(ie, outEq))
+	}
+	ps.hashApps = append(ps.hashApps, app)
+}
+
+func hashWrite(fr *frame, args []value) value {
+	p := fr.i.checkPtr(args[0].(*value))
+	h := fr.i.hstateOf(p)
+	b := byteSeq(args[1])
+	h.buf = append(h.buf, b...)
+	return tuple{len(b), iface{}}
+}
+
+func hashSum(fr *frame, args []value) value {
+	p := fr.i.checkPtr(args[0].(*value))
+	h := fr.i.hstateOf(p)
+	d := fr.i.digest(h)
+	prefix, _ := args[1].([]value)
+	return append(append([]value(nil), prefix...), d...)
+}
+
+func hashReset(fr *frame, args []value) value {
+	p := fr.i.checkPtr(args[0].(*value))
+	fr.i.hstateOf(p).buf = nil
+	return nil
+}
+
+func init() {
+	const b2 = "golang.org/x/crypto/blake2b"
+	externals[b2+".newDigest"] = func(fr *frame, args []value) value {
+		size := int(fr.i.concreteInt(args[0], "blake2b size"))
+		key, _ := args[1].([]value)
+		if size < 1 || size > 64 || len(key) > 64 {
+			panic(unsupported("blake2b.New with invalid size/key"))
+		}
+		res := fr.fn.Signature.Results()
+		dt := deref(res.At(0).Type())
+		p := new(value)
+		*p = zero(dt)
+		fr.i.newHstate(p, &hstate{alg: "blake2b", size: size, key: append([]value(nil), key...)})
+		return tuple{p, iface{}}
+	}
+	externals["(*"+b2+".digest).Write"] = hashWrite
+	externals["(*"+b2+".digest).Sum"] = hashSum
+	externals["(*"+b2+".digest).Reset"] = hashReset
+	externals["(*"+b2+".digest).Size"] = func(fr *frame, args []value) value {
+		return fr.i.hstateOf(args[0].(*value)).size
+	}
+	externals["(*"+b2+".digest).BlockSize"] = func(fr *frame, args []value) value { return 128 }
+	sumN := func(n int) externalFn {
+		return func(fr *frame, args []value) value {
+			h := &hstate{alg: "blake2b", size: n, buf: byteSeq(args[0])}
+			return array(fr.i.digest(h))
+		}
+	}
+	externals[b2+".Sum256"] = sumN(32)
+	externals[b2+".Sum512"] = sumN(64)
+
+	const s3 = "golang.org/x/crypto/sha3"
+	externals[s3+".NewLegacyKeccak256"] = func(fr *frame, args []value) value {
+		st := fr.i.prog.ImportedPackage(s3).Type("state").Type()
+		p := new(value)
+		*p = zero(st)
+		fr.i.newHstate(p, &hstate{alg: "keccak", size: 32})
+		return iface{t: types.NewPointer(st), v: p}
+	}
+	externals["(*"+s3+".state).Write"] = hashWrite
+	externals["(*"+s3+".state).Sum"] = hashSum
+	externals["(*"+s3+".state).Reset"] = hashReset
+	externals["(*"+s3+".state).Size"] = func(fr *frame, args []value) value { return 32 }
+	externals["(*"+s3+".state).BlockSize"] = func(fr *frame, args []value) value { return 136 }
+
+	const xx = "github.com/OneOfOne/xxhash"
+	externals[xx+".NewS64"] = func(fr *frame, args []value) value {
+		seed := fr.i.concreteU64(args[0])
+		st := fr.i.prog.ImportedPackage(xx).Type("XXHash64").Type()
+		p := new(value)
+		*p = zero(st)
+		fr.i.newHstate(p, &hstate{alg: "xxhash64", size: 8, seed: seed})
+		return p
+	}
+	externals["(*"+xx+".XXHash64).Write"] = hashWrite
+	externals["(*"+xx+".XXHash64).WriteString"] = hashWrite
+	externals["(*"+xx+".XXHash64).Reset"] = hashReset
+	externals["(*"+xx+".XXHash64).Size"] = func(fr *frame, args []value) value { return 8 }
+	externals["(*"+xx+".XXHash64).Sum"] = hashSum
+	externals["(*"+xx+".XXHash64).Sum64"] = func(fr *frame, args []value) value {
+		p := fr.i.checkPtr(args[0].(*value))
+		d := fr.i.digest(fr.i.hstateOf(p))
+		if bs, ok := allConcreteBytes(d); ok {
+			var v uint64
+			for _, b := range bs {
+				v = v<<8 | uint64(b)
+			}
+			return v
+		}
+		return fromTerm(types.Typ[types.Uint64], fr.i.bytesTerm(d))
+	}
+
+	externals["crypto/sha256.Sum256"] = func(fr *frame, args []value) value {
+		h := &hstate{alg: "sha256", size: 32, buf: byteSeq(args[0])}
+		return array(fr.i.digest(h))
+	}
+}
